@@ -88,6 +88,12 @@ def is_cut(rq):
     return bool((rq.get("resp") or {}).get("cut_after"))
 
 
+def is_env_fault(rq):
+    """requests whose outcome depends on a failure of the environment in mid-flight (an upstream dying inside its answer,
+    a client half-closing): checked by the monitors only, left out of the Coq comparison, always last in a cluster"""
+    return is_cut(rq) or bool(rq.get("half_close"))
+
+
 def truth_views(nodes):
     """views that equal the truth: every node knows every other node, active, real address, real counts"""
     for i, n in enumerate(nodes):
@@ -193,6 +199,16 @@ def corpus():
         {"id": "n1", "upstreams": [up("u1", "e")], "view": []}],
         "requests": [http_req(1, resp=mk_resp(200, [], {"len": 5000, "seed": 7}, chunked=True)),
                      http_req(1, resp=cut_c), http_req(0, resp=cut_c), http_req(1, resp=cut_l), http_req(0, resp=cut_l)]})
+    truth_views(cs[-1]["nodes"])
+    # a client that half-closes (shuts down its sending side, keeps reading) while the upstream takes 150 ms: it gets the
+    # upstream's answer or a gateway answer, never a fabricated one (seeded change C08-4: 404 on context.Canceled)
+    slow = mk_resp(200, [("X-R", "1")], {"hex": H("late")}); slow["delay_ms"] = 150
+    hc1 = http_req(1, resp=slow); hc1["half_close"] = True
+    hc0 = http_req(0, resp=slow); hc0["half_close"] = True
+    cs.append({"id": "corpus-half-close", "timeout_ms": NORMAL_TIMEOUT_MS, "kind": "consistent", "nodes": [
+        {"id": "n0", "upstreams": [], "view": []},
+        {"id": "n1", "upstreams": [up("u1", "e")], "view": []}],
+        "requests": [http_req(1, resp=slow), hc1, hc0]})
     truth_views(cs[-1]["nodes"])
     # the access log's header allow/block lists redact the log, never the traffic (seeded change C08-2)
     for tag, al in (("block", {"disable": False, "req_block": ["authorization", "cookie", "x-piko-endpoint"], "req_allow": [], "resp_block": ["set-cookie", "x-r"], "resp_allow": []}),
@@ -331,6 +347,7 @@ def gen_http(rng, nodes, eps, rich):
         headers.append(("Connection", "Upgrade"))
         headers.append(("Upgrade", rng.choice(["websocket", "WebSocket", "h2c"])))
     method, target, body, chunked_req, resp = "GET", "/", None, False, mk_resp()
+    half_close = False
     if rich:
         method = rng.choice(METHODS)
         q = rng.choice(QUERIES)
@@ -346,6 +363,10 @@ def gen_http(rng, nodes, eps, rich):
             rh += [("Connection", "X-Rhop"), ("X-Rhop", "1")]
         rsize = rng.choice(BODY_SIZES[:-1])
         resp = mk_resp(rng.choice(STATUSES), rh, {"len": rsize, "seed": rng.randrange(1000)}, chunked=rng.random() < 0.3)
+        if rng.random() < 0.06:
+            # the client half-closes while the upstream takes its time
+            resp["delay_ms"] = 120
+            half_close = True
         if rsize >= 1000 and rng.random() < 0.25:
             # the upstream dies in the middle of the body (streamed / chunked or with a Content-Length)
             resp["cut_after"] = rng.choice([1, 17, rsize // 2, rsize - 1])
@@ -370,7 +391,10 @@ def gen_http(rng, nodes, eps, rich):
         rest = [h_ for h_ in headers if h_[0].lower() != "x-piko-endpoint"]
         hs.sort(key=lambda h_: 0 if h_[1] == ep else 1)
         headers = hs + rest
-    return http_req(rng.randrange(k), method, target, host, headers, body, chunked_req, resp)
+    rq = http_req(rng.randrange(k), method, target, host, headers, body, chunked_req, resp)
+    if half_close and not rq["resp"].get("cut_after"):
+        rq["half_close"] = True
+    return rq
 
 
 def gen_tcp(rng, nodes, eps):
@@ -426,7 +450,7 @@ def gen_cluster(rng, cid, profile):
             reqs.append(gen_tcp(rng, nodes, eps))
         else:
             reqs.append(gen_http(rng, nodes, eps, rng.random() < profile.get("p_rich", 0.3)))
-    reqs.sort(key=lambda r: 1 if is_cut(r) else 0)     # stable: cut responses last (they are left out of the Coq comparison)
+    reqs.sort(key=lambda r: 1 if is_env_fault(r) else 0)     # stable: environment faults last (left out of the Coq comparison)
     return {"id": cid, "timeout_ms": NORMAL_TIMEOUT_MS, "kind": kind, "nodes": nodes, "requests": reqs, "access_log": gen_access_log(rng)}
 
 
@@ -564,8 +588,8 @@ def fail(sig, why, **kw):
 
 def monitor_c01(cl, ri, rq, ob):
     ep = addressed(rq)
-    if is_cut(rq):
-        # an upstream that dies in the middle of its answer (C08's business): only the addressing clause applies
+    if is_env_fault(rq):
+        # an upstream that dies in the middle of its answer / a half-closing client (C08's business): only the addressing clause applies
         if ob.get("stamped") and U(ob["stamp_ep"]) != ep:
             return fail("wrong-endpoint", "request addressed to endpoint %r was delivered to an upstream of endpoint %r" % (ep, U(ob["stamp_ep"])))
         return None
@@ -661,6 +685,14 @@ def monitor_c08(cl, ri, rq, ob):
         if not ob.get("err"):
             return fail("truncated-as-complete", "the upstream died after %d of %d body bytes, the client was shown a complete %d response with %d bytes"
                         % (rq["resp"]["cut_after"], body_len(rq["resp"].get("body")), st, (ob.get("resp") or {}).get("body_len", -1)))
+        return None
+    if rq.get("half_close"):
+        # a client that has shut down its sending side still gets an answer: the upstream's, or one of piko's own
+        # gateway answers (net/http cancels the request when it sees the FIN; 502 is what the proxy makes of that)
+        if ob.get("err"):
+            return fail("hang", "half-closing client saw no complete HTTP answer: %s" % ob["err"])
+        if not stamped and st not in (400, 502, 504):
+            return fail("fabricated", "piko itself answered a half-closing client %d (only 400/502/504 are its own)" % st)
         return None
     if ob.get("err"):
         return fail("hang", "client saw no complete HTTP answer: %s" % ob["err"])
@@ -865,8 +897,8 @@ def case_to_coq(cl, co):
                                                  coq_list([c_ventry(v) for v in dedup_view(n["view"])])))
     reqs = []
     for ri, (rq, ob) in enumerate(zip(cl["requests"], co["requests"])):
-        if is_cut(rq):
-            continue        # always last in a cluster; the model has no notion of a response that ends half way
+        if is_env_fault(rq):
+            continue        # always last in a cluster; the model has no notion of a response that ends half way / a half-closed client
         reqs.append("(mkPQ %d%%nat %s %s, %s)" % (rq["entry"], model_request(rq, ob["key"]), c_resp(rq), c_obs(rq, ob)))
     return "(mkPC %s %s)" % (coq_list(nodes), coq_list(reqs))
 
